@@ -18,6 +18,15 @@ HObs == Obs(h.out, IF h.st = "ended" THEN "ended" ELSE h.st)
 MObs == Obs(out, status)
 Conclusive == alarm = "" /\ h.st \in {"ended", "forever", "halted"}
 Agree == MObs = HObs
+\* the machine stopped with the stack_overflow error although the source semantics did not ask for it: the
+\* stack was too small for this run (outside the semantic envelope; judged by C04's differential clause)
+EndsInOverflow(o) == Len(o.ev) >= 2 /\ o.ev[Len(o.ev) - 1] = [k |-> "f", v |-> <<5>>] /\ o.ev[Len(o.ev)] = [k |-> "f", v |-> <<2>>]
+Exhausted == EndsInOverflow(MObs) /\ ~EndsInOverflow(HObs)
+PrefixOK == LET n == Len(MObs.ev) - 2 IN n <= Len(HObs.ev) /\ SubSeq(MObs.ev, 1, n) = SubSeq(HObs.ev, 1, n)
+Class == IF ~Conclusive THEN "inconclusive"
+         ELSE IF Agree THEN "agree"
+         ELSE IF Exhausted THEN (IF PrefixOK THEN "exhausted_prefix" ELSE "exhausted_other")
+         ELSE "differ"
 Verdict == [halted |-> ~NoRealHalt, fault |-> ~NoFault, alarm |-> alarm]
 
 Init == /\ RTInit /\ hcase = Progs[prog].inits[inp].hcase /\ h = HInitRec(hcase) /\ phase = "m"
@@ -26,8 +35,8 @@ Next == \/ phase = "m" /\ ~MDone /\ RTStep /\ UNCHANGED <<hvars, phase>>
         \/ phase = "h" /\ ~HDone /\ HStep /\ UNCHANGED <<mvars, rvars, phase>>
         \/ /\ phase = "h" /\ HDone /\ phase' = "done"
            /\ PrintT(ToString(<<"HV", "R", prog, inp, Verdict, status, pc, TLCGet("level"), h.st,
-                                IF Conclusive THEN Agree ELSE TRUE, h.wrap,
-                                IF Conclusive /\ ~Agree THEN <<MObs, HObs>> ELSE <<MObs>> >>))
+                                Class, h.wrap,
+                                IF Class \in {"agree", "inconclusive"} THEN <<MObs>> ELSE <<MObs, HObs>> >>))
            /\ UNCHANGED <<mvars, rvars, hvars>>
 Spec == Init /\ [][Next]_vars
 Fuel == TLCGet("level") <= MaxLevel
